@@ -347,6 +347,12 @@ func c11apply(cs c11Case, it *c11item, p *c11parts) [][]byte {
 		cell0(8, inc)
 	case "cell.valLen/max":
 		cell0(8, max)
+	case "cell.keyValLen/keyMinusK_valPlusK": // two wrong length fields that compensate: the total stays right
+		cell0(4, func(x uint32) uint32 { return x - 3 })
+		cell0(8, func(x uint32) uint32 { return x + 3 })
+	case "cell.keyValLen/keyPlusK_valMinusK":
+		cell0(4, func(x uint32) uint32 { return x + 2 })
+		cell0(8, func(x uint32) uint32 { return x - 2 })
 	case "cell.rowLen/plus1":
 		if len(p.cells) > 0 {
 			p.cells[0][13]++
